@@ -43,7 +43,8 @@ META = {
                     "no aliasing, reserved loop counters, boolean conditions); ill-defined runs are discarded",
                     "numpy/CPython arithmetic is the trusted base for value equality"],
     "probes": ["step_failed", "step_switched", "step_raised", "zero_trip_loop", "else_taken",
-               "failed_then_completed", "op_after_raise", "t_end_stop", "cap_abandon", "second_instance"],
+               "failed_then_completed", "op_after_raise", "t_end_stop", "cap_abandon", "second_instance",
+               "interpreter_after_codegen_on_same_objects"],
  },
  "C11": {
     "level": "fault_enumeration",
@@ -232,6 +233,12 @@ def build_all(ctx, sc, tape, permute=True):
             stmts = [stmts[i] for i in tape.perm(len(stmts), "storage_i")]
         sim_phases[ph.name] = SimPhase(ph.name, ph.next_phase, stmts, chooser)
     b.code_sim = DAGCode(sim_phases, sc.initial)
+    with tape.span("shared_description"):
+        if tape.chance(0.15, "shared_description"):
+            # the interpreter is given the very description objects the generator has just worked on
+            # (plain sets: their iteration order is then the interpreter's own business)
+            b.code_sim = b.code_plain
+            ctx.count("probe:interpreter_after_codegen_on_same_objects")
     return b
 
 
